@@ -205,9 +205,15 @@ def report(prop, results, tier, seed, t0, extra_cov=None, assumptions=None, leve
             continue
         shown.add(key)
         prog = extract_program(r["trace"], v["pid"])
+        program = None
+        if "--programs" in r["gen_args"]:
+            pfile = r["gen_args"][r["gen_args"].index("--programs") + 1]
+            for n, ln in enumerate(open(pfile)):
+                if n == v["pid"]:
+                    program = json.loads(ln)
         path = C.save_replay(prop, "%s_p%d" % (r["tag"], v["pid"]),
                              {"property": prop, "kind": "handles", "laws": laws, "event": v["i"], "op": v["op"], "pid": v["pid"],
-                              "profile": r["profile"], "features": r["features"], "harness_args": r["gen_args"], "events": prog})
+                              "profile": r["profile"], "features": r["features"], "harness_args": r["gen_args"], "program": program, "events": prog})
         print("VIOLATION property=%s replay=%s" % (prop, path))
         print("  law(s) %s violated at event %d (%s) of program %d, build %s" % (",".join(laws), v["i"], v["op"], v["pid"], r["profile"]))
         rc = 1
